@@ -184,6 +184,12 @@ func Run(req *fnv1.RunFunctionRequest) *fnv1.RunFunctionResponse {
 			for _, r := range rsp.Desired.Resources {
 				setLabel(r.Resource, str(op["key"]), str(op["value"]))
 			}
+		case "nameFrom": // the function chooses metadata.name itself, derived from an XR field
+			v, _ := getPath(xr, str(op["field"]))
+			xn, _ := getPath(xr, "metadata.name")
+			for n, r := range rsp.Desired.Resources {
+				setMeta(r.Resource, "name", fmt.Sprintf("%s-%s-%v", str(xn), n, v))
+			}
 		case "setField": // set spec.<field> of one or all desired resources
 			for n, r := range rsp.Desired.Resources {
 				if op["name"] != nil && str(op["name"]) != n {
@@ -365,6 +371,18 @@ func requireOp(req *fnv1.RunFunctionRequest, rsp *fnv1.RunFunctionResponse, xr m
 		for _, n := range want {
 			rsp.Requirements.ExtraResources["chain-"+n] = byName(n)
 		}
+	case "pager":
+		// asks for page N+1 after having been given page N: requirements differ
+		// only in a label VALUE from round to round and never stabilise
+		page := int64(1)
+		for _, it := range req.GetExtraResources()["pg"].GetItems() {
+			if p, ok := getPath(it.GetResource().AsMap(), "spec.page"); ok {
+				if f, ok := p.(float64); ok {
+					page = int64(f) + 1
+				}
+			}
+		}
+		rsp.Requirements.ExtraResources["pg"] = &fnv1.ResourceSelector{ApiVersion: av, Kind: kind, Match: &fnv1.ResourceSelector_MatchLabels{MatchLabels: &fnv1.MatchLabels{Labels: map[string]string{"page": fmt.Sprint(page)}}}}
 	case "flip":
 		// never stabilises: alternates between two selectors depending on what it was given
 		if _, ok := req.GetExtraResources()["flip-a"]; ok {
@@ -407,6 +425,21 @@ func thing(name string, xr map[string]any, op map[string]any) *structpb.Struct {
 	}
 	s, _ := structpb.NewStruct(map[string]any{"apiVersion": av, "kind": kind, "spec": spec})
 	return s
+}
+
+func setMeta(r *structpb.Struct, k, v string) {
+	if r.Fields == nil {
+		r.Fields = map[string]*structpb.Value{}
+	}
+	md := r.Fields["metadata"].GetStructValue()
+	if md == nil {
+		md = &structpb.Struct{}
+		r.Fields["metadata"] = structpb.NewStructValue(md)
+	}
+	if md.Fields == nil {
+		md.Fields = map[string]*structpb.Value{}
+	}
+	md.Fields[k] = structpb.NewStringValue(v)
 }
 
 func setLabel(r *structpb.Struct, k, v string) {
